@@ -28,7 +28,7 @@ import numpy
 
 from diffpy.structure import Structure
 from diffpy.structure.parsers import StructureParser
-from diffpy.structure.structureerrors import StructureFormatError
+from diffpy.structure.structureerrors import LatticeError, StructureFormatError
 from diffpy.structure.utils import isfloat
 
 # Constants ------------------------------------------------------------------
@@ -239,6 +239,9 @@ class P_xcfg(StructureParser):
                 else:
                     break
             # check header for consistency
+            if xcfg_A is None:
+                emsg = "%d: length unit 'A =' is not defined" % p_nl
+                raise StructureFormatError(emsg)
             if not numpy.all(xcfg_H0_set):
                 emsg = "H0 tensor is not properly defined"
                 raise StructureFormatError(emsg)
@@ -279,7 +282,7 @@ class P_xcfg(StructureParser):
             if len(stru) != p_natoms:
                 emsg = "expected %d atoms, read %d" % (p_natoms, len(stru))
                 raise StructureFormatError(emsg)
-        except (ValueError, IndexError):
+        except (ValueError, IndexError, TypeError, ZeroDivisionError, LatticeError):
             emsg = "%d: file is not in XCFG format" % p_nl
             exc_type, exc_value, exc_traceback = sys.exc_info()
             e = StructureFormatError(emsg)
